@@ -176,6 +176,12 @@ def fam_outage(tag, durations_ms):
     s.wait_state("t1", ["unreachable"], 1, giveup_bound_ms() + 1500).notify("l2").probe()
     s.up("t1").delivered("t1").probe()
     out.append(s.done())
+    # a longer retry window: the client keeps trying (backing off) for about that long before it gives up
+    cfg6 = {"max_retry": 6, "auto_retry": 1, "max_interval": 1}
+    s = Sc("%s-out-window6" % tag, 1, cfg=cfg6, fam="outage", covers=["giveup", "backoff_window"])
+    s.regall().down("t1").notify("l1").wait_state("t1", ["unreachable"], 1, giveup_bound_ms(cfg6) + 1500).probe()
+    s.up("t1").wait_state("t1", ["reachable"], 0, deliver_bound_ms(cfg6) + 1500).probe()
+    out.append(s.done())
     # subscription error on the notification path, renewal succeeds
     s = Sc("%s-sub-renew" % tag, 1, fam="outage", covers=["sub_error", "renewal"])
     s.regall().mode("t1", {"k": "sub_error"}).notify("l1").mode("t1", ACCEPT).delivered("t1").probe()
